@@ -441,6 +441,17 @@ func H_ModifyBid() {
 	nd.Assert("C11.modify-accepted-iff-owner-open-batch-and-not-lower", nd.Iff(accepted, ref))
 	nd.Assert("C18.modify-accepted-iff-documented-preconditions", nd.Iff(accepted, ref))
 	nd.Assert("C08.modify-accepted-only-while-open", !accepted || sp.status == types.AuctionStatusStarted)
+	// C06: an accepted fixed-price bid is final — it cannot be enlarged behind the published remainder
+	if !sp.batch {
+		nd.Assert("C06.fixed-price-bid-cannot-be-modified", !accepted)
+		if fa, ok := getAuction(e, tid()).(*types.FixedPriceAuction); ok && sp.status == types.AuctionStatusStarted {
+			sold := nd.ZOf(0)
+			for _, b := range bidsOf(e, tid()) {
+				sold = sold.Add(sellAmtZ(b))
+			}
+			nd.Assert("C06.remainder-is-offered-minus-accepted-after-modify", nd.ZInt(fa.RemainingSellingCoin.Amount).EQ(nd.ZInt(st.offered()).Sub(sold)))
+		}
+	}
 	nd.Observe("accepted", accepted)
 
 	post := snapshot(e, trackedAccounts(tid()))
